@@ -1159,6 +1159,14 @@ def chi2_cases(chk, ctx, rng, count):
         nw = int(rng.integers(2, 5))
         w = rng.dirichlet(np.ones(nw)); w = np.array([coarse(v, 16) for v in w]); w[-1] = 1.0 - float(np.sum(w[:-1]))
         if it % 5 == 0: w = np.array([0.0, 1.0]) if it % 10 == 0 else np.array([0.5, 0.5])
+        elif it % 4 == 1:
+            # exact zeros at arbitrary positions (components that are absent): the remaining components keep THEIR degrees of freedom
+            nw = int(rng.integers(3, 6))
+            keep = rng.random(nw) < 0.5
+            if not keep.any(): keep[int(rng.integers(nw))] = True
+            if keep.all(): keep[int(rng.integers(nw - 1))] = False
+            v = rng.dirichlet(np.ones(int(keep.sum()))); v = [coarse(x, 16) for x in v]; v[-1] = 1.0 - float(np.sum(v[:-1]))
+            w = np.zeros(nw); w[np.flatnonzero(keep)] = v
         nw = len(w)
         bad_w = bool(it % 9 == 4)
         if bad_w: w = w * 1.01
